@@ -148,7 +148,7 @@ theorem mAllocate_spec (m : MddMgr) (h : MInv m) (u : Nat) (m1 : MddMgr)
 
 /-! ### `incref` -/
 
-structure RefOnly (m m' : MddMgr) : Prop where
+structure MRefOnly (m m' : MddMgr) : Prop where
   tbl : m'.tbl = m.tbl
   pred : m'.pred = m.pred
   max : m'.max = m.max
@@ -156,13 +156,13 @@ structure RefOnly (m m' : MddMgr) : Prop where
   cache : m'.cache = m.cache
   dom : ∀ k, m.ref.contains k = true → m'.ref.contains k = true
 
-theorem RefOnly.refl (m : MddMgr) : RefOnly m m := ⟨rfl, rfl, rfl, rfl, rfl, fun _ h => h⟩
+theorem MRefOnly.refl (m : MddMgr) : MRefOnly m m := ⟨rfl, rfl, rfl, rfl, rfl, fun _ h => h⟩
 
-theorem RefOnly.trans {a b c : MddMgr} (h1 : RefOnly a b) (h2 : RefOnly b c) : RefOnly a c :=
+theorem MRefOnly.trans {a b c : MddMgr} (h1 : MRefOnly a b) (h2 : MRefOnly b c) : MRefOnly a c :=
   ⟨h2.tbl.trans h1.tbl, h2.pred.trans h1.pred, h2.max.trans h1.max, h2.free.trans h1.free,
    h2.cache.trans h1.cache, fun k hk => h2.dom k (h1.dom k hk)⟩
 
-theorem RefOnly.inv {m m' : MddMgr} (hr : RefOnly m m') (h : MInv m) : MInv m' := by
+theorem MRefOnly.inv {m m' : MddMgr} (hr : MRefOnly m m') (h : MInv m) : MInv m' := by
   refine ⟨?_, ?_, hr.dom _ h.refOne, ?_, ?_, ?_, ?_, ?_, ?_⟩
   · rw [hr.tbl]; exact h.wf
   · rw [hr.tbl, hr.pred]; exact h.pred
@@ -174,10 +174,10 @@ theorem RefOnly.inv {m m' : MddMgr} (hr : RefOnly m m') (h : MInv m) : MInv m' :
   · rw [hr.tbl, hr.cache]; exact h.cache
 
 theorem mIncref_refOnly (u : Int) (m : MddMgr) (r : Except Err Unit) (m' : MddMgr)
-    (hi : mIncref u m = (r, m')) : RefOnly m m' := by
+    (hi : mIncref u m = (r, m')) : MRefOnly m m' := by
   unfold mIncref at hi
   split at hi
-  · simp only [Prod.mk.injEq] at hi; obtain ⟨_, hm⟩ := hi; subst hm; exact RefOnly.refl m
+  · simp only [Prod.mk.injEq] at hi; obtain ⟨_, hm⟩ := hi; subst hm; exact MRefOnly.refl m
   · simp only [Prod.mk.injEq] at hi; obtain ⟨_, hm⟩ := hi; subst hm
     refine ⟨rfl, rfl, rfl, rfl, rfl, ?_⟩
     intro k hk
@@ -185,12 +185,12 @@ theorem mIncref_refOnly (u : Int) (m : MddMgr) (r : Except Err Unit) (m' : MddMg
     rw [TreeMap.contains_insert]; simp [hk]
 
 theorem mDecref_refOnly (u : Int) (m : MddMgr) (r : Except Err Unit) (m' : MddMgr)
-    (hi : mDecref u m = (r, m')) : RefOnly m m' := by
+    (hi : mDecref u m = (r, m')) : MRefOnly m m' := by
   unfold mDecref at hi
   split at hi
-  · simp only [Prod.mk.injEq] at hi; obtain ⟨_, hm⟩ := hi; subst hm; exact RefOnly.refl m
+  · simp only [Prod.mk.injEq] at hi; obtain ⟨_, hm⟩ := hi; subst hm; exact MRefOnly.refl m
   · split at hi
-    · simp only [Prod.mk.injEq] at hi; obtain ⟨_, hm⟩ := hi; subst hm; exact RefOnly.refl m
+    · simp only [Prod.mk.injEq] at hi; obtain ⟨_, hm⟩ := hi; subst hm; exact MRefOnly.refl m
     · simp only [Prod.mk.injEq] at hi; obtain ⟨_, hm⟩ := hi; subst hm
       refine ⟨rfl, rfl, rfl, rfl, rfl, ?_⟩
       intro k hk
@@ -198,13 +198,13 @@ theorem mDecref_refOnly (u : Int) (m : MddMgr) (r : Except Err Unit) (m' : MddMg
       rw [TreeMap.contains_insert]; simp [hk]
 
 theorem mIncrefAll_refOnly : ∀ (l : List Int) (m : MddMgr) (r : Except Err Unit) (m' : MddMgr),
-    mIncrefAll l m = (r, m') → RefOnly m m' := by
+    mIncrefAll l m = (r, m') → MRefOnly m m' := by
   intro l
   induction l with
   | nil =>
     intro m r m' hi
     simp only [mIncrefAll, Prod.mk.injEq] at hi
-    obtain ⟨_, hm⟩ := hi; subst hm; exact RefOnly.refl m
+    obtain ⟨_, hm⟩ := hi; subst hm; exact MRefOnly.refl m
   | cons v rest ih =>
     intro m r m' hi
     unfold mIncrefAll at hi
